@@ -9,20 +9,34 @@ FILES = ["tests/data/binary/HelloWorld.efi", "tests/data/binary/HelloWorld.efi.s
          "tests/data/binary/test.pecoff", "authenticode/testdata/test.pecoff", "authenticode/testdata/test.pecoff.signed"]
 
 
-def layouts(c, init, tier, name, files=None, invs=INVS, heap="8g"):
-    cfg = 'CONSTANTS\n  Tier = "%s"\nINIT %s\nNEXT Next\n%sCONSTRAINT Emit\nCHECK_DEADLOCK FALSE\n' % (tier, init, invs)
+LFS = {"q": (64, 128), "t": (64, 72, 200)}
+
+
+def layouts(c, init, tier, name, files=None, invs=INVS, heap="8g", bits=(32, 64), lfs=None, workers=None):
+    cfg = 'CONSTANTS\n  Tier = "%s"\n  PBits = {%s}\n  PLf = {%s}\nINIT %s\nNEXT Next\n%sCONSTRAINT Emit\nCHECK_DEADLOCK FALSE\n' % (
+        tier, ", ".join(map(str, bits)), ", ".join(map(str, lfs or LFS[tier])), init, invs)
     f = {"run.cfg": cfg}
     f.update(files or {})
-    r = c.tlc("MC_Pe", "run.cfg", files=f, name=name, timeout=3000, heap=heap)
+    r = c.tlc("MC_Pe", "run.cfg", files=f, name=name, timeout=3000, heap=heap, workers=workers)
     return r.raw_json_lines()
+
+
+def layouts_parallel(c, tier, name):
+    """The thorough layout space as parallel TLC processes, one per (image kind, e_lfanew): TLC builds and checks initial states in
+    one thread, and here every layout is an initial state."""
+    from concurrent.futures import ThreadPoolExecutor
+    parts = [(b, lf) for b in (32, 64) for lf in LFS[tier]]
+    with ThreadPoolExecutor(len(parts)) as ex:
+        outs = list(ex.map(lambda p: layouts(c, "MCInit", tier, "%s-pe%d-lf%d" % (name, p[0], p[1]), heap="6g", bits=(p[0],), lfs=(p[1],), workers=3), parts))
+    return [l for o in outs for l in o]
 
 
 def execute(c, lines, flips, base, extra=None):
     items = []
     for i, l in enumerate(lines):
         fl = flips
-        if flips == "all-sampled":      # every free byte for one layout in 16, region boundaries for the others
-            fl = "all" if (base + i) % 16 == 0 else "boundary"
+        if flips == "all-sampled":      # every free byte for one layout in 17, region boundaries for the others
+            fl = "all" if (base + i) % 17 == 0 else "boundary"      # 17: spread over the 16 worker processes
         pre = '{"sc":%d,"flips":"%s",' % (base + i, fl)
         if extra:
             pre += extra[i]
@@ -73,7 +87,7 @@ def report(c, res, deaths, items):
 def run(c):
     c.build_worker()
     tier = "q" if c.quick else "t"
-    lines = layouts(c, "MCInit", tier, "layouts-" + tier)
+    lines = layouts(c, "MCInit", tier, "layouts-" + tier) if c.quick else layouts_parallel(c, tier, "layouts-" + tier)
     res, deaths, items, st = execute(c, lines, "boundary" if c.quick else "all-sampled", 0)
     report(c, res, deaths, items)
     n, flips = st["n"], st["flips"]
@@ -121,7 +135,7 @@ def run(c):
                      "hashed ranges; the harness builds the image, compares authenticode.Parse().Hash() with SHA-256 over those ranges + padding, and flips %s "
                      "layout-neutral byte (digest must change iff covered). Plus >32 KiB sections and the repository binaries projected by an independent "
                      "PE reader. All layouts are distinct and non-trivial.") % ("2" if c.quick else "3", "" if c.quick else ", one-gap variants",
-                                                                              "region-boundary and one interior" if c.quick else "region-boundary (every free byte for one layout in 16)")
+                                                                              "region-boundary and one interior" if c.quick else "region-boundary (every free byte for one layout in 17)")
     # canary: corrupt one emitted range -> must be noticed
     cj = json.loads(lines[len(lines) // 2])
     cj["ranges"][0][1] -= 1
